@@ -6,7 +6,10 @@ working tree (harness/c05_eval.cc) and the Lean model run with hardware doubles
 (c05_driver) on the same datasets x programs x evaluators; fitness bits and the difficulty
 vector are compared.  Independent of the model, every case is also judged by the property's own
 oracle (NaN / positive fitness, difficulty moved on the wrong rows, zero fitness without a match,
-fitness far from minus the documented mean).
+fitness far from minus the documented mean).  Round 3c: the declared type of every counter / accumulator of the
+evaluators and classifiers is extracted from the clang AST (tools/translate_counters.py -> GenCounters.lean, width
+obligation decided in Props.lean) and counter-width-directed multisets (`wrap`: 2^8+j / 2^16+j examples in one slot /
+class / verdict next to a minority) are judged by the documented rule evaluated on the multiset.
 """
 import glob
 import json
@@ -22,6 +25,7 @@ from checks import c05_doc as D
 
 sys.path.insert(0, os.path.join(C.ROOT, "tools"))
 import translate_errf  # noqa: E402
+import translate_counters  # noqa: E402
 from cxx2lean import Refuse  # noqa: E402
 
 EPS2 = 2.0 * 2.0 ** -52            # issmall threshold
@@ -391,6 +395,96 @@ def big_cases(chk, rng, searching):
     return out
 
 
+def wrap_cases(chk, rng, searching):
+    """counter-width-directed cases (C05-m8): program X1 on a MULTISET of examples in which ONE slot / ONE class /
+    ONE accumulator receives base + j examples (base = 2^8, 2^16, … ; j = 0..3) next to a minority of m > j examples
+    of another class in the same slot: a counter narrower than the model's (a `Nat`) wraps to j, the minority takes
+    the slot and fitness / difficulty are those of another classifier.  Also: base + j WRONG examples (the error
+    accumulator), base + j examples in one Gaussian class (Welford's count), every difficulty counter starting at
+    2^8-1, 2^16-1, 2^32-1, 2^40.  A short list in the quick tier (2^8 and 2^16), a longer one (multiples, 2^17,
+    2^20) in the thorough tier and whenever a proof / the tie broke."""
+    full = chk.tier != "quick" or searching
+    bases = [256, 65536] if not full else [256, 512, 65536, 131072] if chk.tier == "quick" else \
+        [256, 512, 768, 65536, 65536, 131072, 196608, 1 << 20]
+    vals = [-100.0, 100.0, -3.0, 3.0, 0.25, None]
+    out = []
+
+    def d0():
+        return rng.choice([0, 0, 255, 65535, (1 << 32) - 1, (1 << 40) + rng.below(99)])
+
+    def grp(gs):
+        return f"{len(gs)}" + "".join(f" {c if isinstance(c, int) else tok(c)} {tok(x)} {k}" for c, x, k in gs)
+
+    for base in bases:
+        reps = 2 if chk.tier != "quick" else 1
+        for _ in range(reps):
+            j = rng.below(4)
+            m = j + 1 + rng.below(40)
+            big = base + j
+            # -- dyn_slot: the majority class of one slot has base + j examples, the minority m > j
+            for variant in ("majority", "majority", "wrong"):
+                ncl = rng.choice([2, 2, 3])
+                xslot = rng.choice([1, 2, 10])
+                last = ncl * xslot - 1
+                while True:
+                    va, vb = rng.choice(vals), rng.choice(vals)
+                    sa = last if va is None else min(D.discretization(va, last), last)
+                    sb = last if vb is None else min(D.discretization(vb, last), last)
+                    if sa != sb:
+                        break
+                cmaj = rng.below(ncl)
+                cmin = (cmaj + 1 + rng.below(ncl - 1)) % ncl
+                gs = [(cmaj, va, big + (m + 1 + rng.below(9) if variant == "wrong" else 0)),
+                      (cmin, va, big if variant == "wrong" else m), (cmin, vb, 1 + rng.below(50))]
+                for c in range(ncl):
+                    if c not in (cmaj, cmin):
+                        gs.append((c, vb, 1 + rng.below(30)))
+                out.append(f"wrap dyn {xslot} {ncl} {d0()} " + grp(gs))
+            # -- gaussian: one class distribution has seen base + j values (non-constant: Welford's count matters)
+            for variant in ("majority", "undefined"):
+                ncl = rng.choice([2, 2, 3])
+                cmaj = rng.below(ncl)
+                cmin = (cmaj + 1 + rng.below(ncl - 1)) % ncl
+                ctr = float(rng.choice([-100, -40, 60]))
+                h = big // 2 + rng.below(3)
+                if variant == "majority":
+                    gs = [(cmaj, ctr - 1.0, h), (cmaj, ctr + 1.0, big - h), (cmin, ctr, m),
+                          (cmin, ctr + 200.0, 5 + rng.below(40)), (cmin, ctr + 202.0, 5 + rng.below(40))]
+                else:            # the big class has no value on most examples (counted as 0.0)
+                    gs = [(cmaj, None, h), (cmaj, 2.0, big - h), (cmin, 1.0, m),
+                          (cmin, 300.0, 5 + rng.below(40)), (cmin, 304.0, 5 + rng.below(40))]
+                for c in range(ncl):
+                    if c not in (cmaj, cmin):
+                        gs += [(c, -1000.0, 3 + rng.below(9)), (c, -1003.0, 3 + rng.below(9))]
+                out.append(f"wrap gau 1 {ncl} {d0()} " + grp(gs))
+            # -- binary: base + j right / base + j wrong answers
+            v = rng.choice([100.0, 0.5, 1e-300])
+            out.append(f"wrap bin 1 2 {d0()} " + grp([(0, -v, big), (1, -v, m), (1, v, 1 + rng.below(50))]))
+            out.append(f"wrap bin 1 2 {d0()} " + grp([(0, v, big), (1, v, m), (0, -v, 1 + rng.below(50))]))
+            # -- sum of errors: base + j matched rows and m wrong ones, and the other way round
+            kinds = ["count", rng.choice(["mae", "mse", "rmae"])] if not full else ["count", "mae", "mse", "rmae"]
+            for kind in kinds:
+                x = float(rng.between(-5, 6))
+                a, b = (big, m) if rng.chance(0.5) else (m, big)
+                out.append(f"wrap {kind} 1 0 {d0()} " + grp([(x, x, a), (x + rng.choice([1.0, -2.0, 0.5]), x, b),
+                                                           (x, None, rng.below(3))]))
+    if chk.tier != "quick":
+        # 2^24 + j WRONG answers: a `float` accumulator stops counting at 2^24 (9 GB under ASan: only with memory to spare)
+        avail = 0
+        try:
+            for ln in open("/proc/meminfo"):
+                if ln.startswith("MemAvailable:"):
+                    avail = int(ln.split()[1]) // (1 << 20)
+        except OSError:
+            pass
+        if avail >= 24:
+            j = rng.below(4)
+            out.append(f"wrap bin 1 2 0 " + grp([(0, 100.0, (1 << 24) + j), (1, 100.0, 1 + rng.below(40))]))
+        else:
+            chk.count("wrap:2^24_case_skipped_for_lack_of_memory")
+    return out
+
+
 def gen_cases(chk, rng):
     g = Gen(rng)
     quick = chk.tier == "quick"
@@ -557,7 +651,7 @@ def lean_request(line, cpp):
         return f"gac {t[1]} {t[2]} {t[5]}"
     if t[0] == "tev":
         return f"tev {t[1]} " + " ".join(t[3:])
-    if t[0] in ("big", "hist"):
+    if t[0] in ("big", "wrap", "hist"):
         return None                      # judged by the property's oracle only / expanded into plain cases
     return line   # ga / small: same request
 
@@ -881,6 +975,80 @@ def big_oracle(line, cpp):
     return bad
 
 
+def parse_wrap(line):
+    t = line.split()
+    kind, xslot, ncl, d0, g = t[1], int(t[2]), int(t[3]), int(t[4]), int(t[5])
+    cls = kind in ("dyn", "gau", "bin")
+    gs = []
+    for j in range(g):
+        c, x, k = t[6 + 3 * j:9 + 3 * j]
+        gs.append((int(c) if cls else untok(c), untok(x), int(k)))
+    return kind, xslot, ncl, d0, [q for q in gs], cls
+
+
+def wrap_need(kind, gs):
+    """the largest count one counter of the case has to hold (gaussian: the examples of one class)"""
+    if kind == "gau":
+        tot = {}
+        for c, _, k in gs:
+            tot[c] = tot.get(c, 0) + k
+        return max(tot.values())
+    return max(k for _, _, k in gs)
+
+
+def wrap_oracle(line, cpp, stats=None):
+    """counter-width-directed cases: the documented rule on the multiset of examples (exact integer counts)"""
+    kind, xslot, ncl, d0, gs, cls = parse_wrap(line)
+    c = cpp.split()
+    name = {"dyn": "dyn_slot", "gau": "gaussian", "bin": "binary"}.get(kind, kind)
+    n = sum(k for _, _, k in gs)
+    tags = {"evaluator": name, "scale": n}
+    big = wrap_need(kind, gs)
+    try:
+        fit = untok(c[2])
+        ii, oi = c.index("inc"), c.index("odd")
+        inc = [int(x) for x in c[ii + 1:oi]]
+        odd = int(c[oi + 1])
+        ok = c[:2] == ["ok", "fit"] and int(c[c.index("n") + 1]) == n and len(inc) == len(gs)
+    except (ValueError, IndexError):
+        ok = False
+    if not ok:
+        return [(f"{name}_evaluator on a multiset of {n} examples: answer {cpp[:100]}", dict(tags, kind="shape"))]
+    live = [(q, i) for i, q in enumerate(gs) if q[2] > 0]
+    if cls:
+        doc = D.documented(kind, [[q[1] for q, _ in live]], [q[0] for q, _ in live], ncl, xslot,
+                           weights=[q[2] for q, _ in live])
+        if stats is not None:
+            stats["ambiguous"] = doc["ambiguous"]
+        if doc["ambiguous"]:
+            return []
+        want, tol = doc["fitness"], doc["tol"]
+        wrong = {i: w for (q, i), w in zip(live, doc["wrong"])}
+        shape = ", ".join(f"{q[2]} of class {q[0]} at {q[1]!r}" for q, _ in live)
+    else:
+        errs = {i: doc_err(kind, q[1], q[0]) for q, i in live}
+        ex = {i: exact_err(kind, q[1], q[0]) for q, i in live}
+        if any(e is None for e in ex.values()):
+            return []
+        want = -float(sum(ex[i] * q[2] for q, i in live) / n)
+        tol = 1e-9 * float(max(ex.values())) + 1e-300
+        wrong = {i: not (errs[i] == errs[i] and abs(errs[i]) < EPS2) for _, i in live}
+        shape = ", ".join(f"{q[2]} with output {q[1]!r} and target {q[0]!r}" for q, _ in live)
+    bad = []
+    if fit != fit or fit > 0:
+        bad.append((f"{name}_evaluator on {n} examples ({shape}) returned {fit!r}",
+                    dict(tags, kind="nan" if fit != fit else "positive")))
+    elif abs(fit - want) > tol:
+        bad.append((f"{name}_evaluator on {n} examples ({shape}; a counter must hold {big}) returned {fit!r}; the "
+                    f"documented rule gives {want!r}", dict(tags, kind="width-fitness")))
+    winc = [(gs[i][2] if wrong.get(i) else 0) for i in range(len(gs))]
+    if inc != winc or odd:
+        bad.append((f"{name}_evaluator on {n} examples ({shape}): the difficulty counter (start {d0}) became {d0 + 1} on "
+                    f"{inc} examples per group and something else on {odd}; the documented rule misjudges {winc} per group",
+                    dict(tags, kind="width-difficulty")))
+    return bad
+
+
 def shrink(exe, line, still_fails):
     """drop rows of a reg / con / cls case while the oracle still fails"""
     t = line.split()
@@ -926,6 +1094,42 @@ def shrink(exe, line, still_fails):
     return mk(rows)
 
 
+MIN_CAP = {"uns": 32, "sgn": 31, "flt": 53}        # = Vita.C05.Counters.minCap (the Lean side decides; this names the row)
+
+
+def regen_counters(chk):
+    """GenCounters.lean from the clang AST (cached by the hash of the repo tree + tool + TU); -> (rows, narrow rows)"""
+    import hashlib
+    gen = os.path.join(C.LEAN, "Vita", "C05", "GenCounters.lean")
+    tool = os.path.join(C.ROOT, "tools", "translate_counters.py")
+    tu = os.path.join(C.ROOT, "tools", "tu", "counters_tu.cc")
+    key = C.repo_tree_hash(open(tool).read() + open(tu).read())
+    stamp = os.path.join(C.BUILD, "c05_counters.stamp")
+    cur = hashlib.sha256(open(gen, "rb").read()).hexdigest() if os.path.exists(gen) else ""
+    rows = None
+    if os.path.exists(stamp):
+        try:
+            st = json.load(open(stamp))
+            if st.get("key") == key and st.get("gen") == cur:
+                rows = [tuple(r[:3]) + (tuple(r[3]),) for r in st["rows"]]
+        except (ValueError, KeyError):
+            rows = None
+    if rows is None:
+        rows, changed = translate_counters.emit(gen)
+        cur = hashlib.sha256(open(gen, "rb").read()).hexdigest()
+        os.makedirs(C.BUILD, exist_ok=True)
+        with open(stamp, "w") as f:
+            json.dump({"key": key, "gen": cur, "rows": rows}, f)
+    chk.cov["counter_table_rows"] = len(rows)
+    chk.cov["counter_table_updates"] = sum(1 for r in rows if r[2] == "update")
+    ints = [r[3][2] for r in rows if r[3][1] != "flt"]
+    flts = [r[3][2] for r in rows if r[3][1] == "flt"]
+    chk.cov["narrowest_integer_counter_bits"] = min(ints) if ints else None
+    chk.cov["narrowest_floating_accumulator_bits"] = min(flts) if flts else None
+    narrow = [r for r in rows if r[3][2] < MIN_CAP[r[3][1]]]
+    return rows, narrow
+
+
 def run(chk, replay=None):
     rng = C.SplitMix(chk.seed)
     broken = []
@@ -939,6 +1143,14 @@ def run(chk, replay=None):
         # Gen.lean keeps its last (committed) content: the driver still runs, the differential below
         # compares the code with the old text
         broken.append("translator tools/translate_errf.py refuses the current evaluator.tcc / utility.h: %s" % e)
+    # the declared type of every counter / accumulator of the evaluators -> Vita/C05/GenCounters.lean
+    try:
+        _, narrow = regen_counters(chk)
+        for o, nm, role, (ct, kind, cap) in narrow[:3]:
+            broken.append(f"counter `{nm}` ({role} of {o}) is declared `{ct}`: it counts exactly up to 2^{cap} only, the "
+                          f"model assumes at least 2^{MIN_CAP[kind]} (obligation generated_counters_wide_enough)")
+    except Refuse as e:
+        broken.append("translator tools/translate_counters.py refuses the current evaluators / classifiers: %s" % e)
     ok, out = C.lake_build(["c05_driver"])
     drv_ok = ok
     if not ok:
@@ -964,6 +1176,7 @@ def run(chk, replay=None):
 
     if not replay:
         lines += big_cases(chk, rng, searching=bool(broken))
+        lines += wrap_cases(chk, rng, searching=bool(broken))
     cpp, deaths = C.run_lines(exe, lines)
     for idx, rc, se in deaths:
         chk.violation("harness died (rc=%d) on: %s\n%s" % (rc, lines[idx][:300], se[-1500:]),
@@ -1000,7 +1213,7 @@ def run(chk, replay=None):
         if c.startswith("died") or c == "skipped":
             continue
         if hj is None:
-            key = t[0] + ":" + (t[1] if t[0] in ("reg", "cls", "clsf", "tev", "big") else t[2] if t[0] == "con" else
+            key = t[0] + ":" + (t[1] if t[0] in ("reg", "cls", "clsf", "tev", "big", "wrap") else t[2] if t[0] == "con" else
                                 t[3] if t[0] == "conp" else t[4] if t[0] == "gac" else "")
             chk.count("case:" + key)
             chk.seen(line, nontrivial=t[0] not in ("small",))
@@ -1049,9 +1262,16 @@ def run(chk, replay=None):
             if not math.isfinite(untok(t[1])):
                 chk.count("nonfinite_objective:" + t[0])
         # ---- the property's own oracle ----
-        verdicts = big_oracle(line, c) if t[0] == "big" else oracle(line, c, ostats)
+        verdicts = big_oracle(line, c) if t[0] == "big" else wrap_oracle(line, c, ostats) if t[0] == "wrap" else \
+            oracle(line, c, ostats)
         if t[0] == "big":
             chk.count("scale:%s" % t[4])
+        if t[0] == "wrap":
+            wk = wrap_need(t[1], parse_wrap(line)[4])
+            chk.count("counter_must_hold:2^%d+" % (wk.bit_length() - 1))
+            chk.count("wrap_start_difficulty:" + ("0" if t[4] == "0" else ">=2^%d-1" % ((int(t[4]) + 1).bit_length() - 1)))
+            if ostats.get("ambiguous"):
+                chk.count("wrap:ambiguous_not_judged")
         if t[0] in ("cls", "clsf") and "doc" in ostats:
             # what the classification cases exercised (measured on the outputs of the real programs)
             doc, gs, mouts = ostats["doc"], ostats["gauss"], ostats["mouts"]
@@ -1090,7 +1310,7 @@ def run(chk, replay=None):
                 what = (f"evaluation #{hj + 1} of a history in which the dataframe changes under one evaluator object "
                         f"(the evaluator must score the data it holds at call time): " + what)
                 tags = dict(tags, history=True)
-            elif not replay and t[0] != "big":
+            elif not replay and t[0] not in ("big", "wrap"):
                 small = shrink(exe, line, lambda l, a, s=sig: any((tg.get("evaluator"), tg.get("kind")) == s
                                                                  for _, tg in oracle(l, a)))
                 a2, _ = C.run_lines(exe, [small])
@@ -1130,13 +1350,13 @@ def run(chk, replay=None):
     concrete = [v for v in chk.violations if not v[2]]
     if broken and not concrete and not chk.known_hit and not replay and chk.tier == "quick":
         # SEARCH PHASE: something no longer checks and nothing concrete was found – the directed large datasets
-        extra = big_cases(chk, rng, searching=True)
+        extra = wrap_cases(chk, rng, searching=True) + big_cases(chk, rng, searching=True)
         ans, _ = C.run_lines(exe, extra)
         chk.cov["search_phase_cases"] = len(extra)
         for l, a in zip(extra, ans):
             if not a.startswith("ok"):
                 continue
-            for what, tags in big_oracle(l, a):
+            for what, tags in (wrap_oracle(l, a) if l.startswith("wrap ") else big_oracle(l, a)):
                 sig = (tags.get("evaluator"), tags.get("kind"))
                 if sig in reported:
                     continue
